@@ -626,9 +626,9 @@ class PseudoNetCDFFile(PseudoNetCDFSelfReg, object):
         # left = dimevals[0] - 1
         # right = dimevals[-1] + 1
         if method == 'bounds':
-            fidx = np.interp(val, dimevals, idx, left=left, right=right)
-            if right is None or right == dimevals[-1]:
-                fidx = np.minimum(fidx, dimvals.size - 1)
+            # the last edge closes the last cell: no index beyond size - 1
+            cidx = np.minimum(idx, dimvals.size - 1)
+            fidx = np.interp(val, dimevals, cidx, left=left, right=right)
         else:
             fidx = np.interp(val, dimvals, idx, left=left, right=right)
 
